@@ -150,6 +150,16 @@ def rule_setitem(ctx, rule='R14.c'):
                            "changes on either side show up on the other)")
             elif got[0] is got[1]:
                 bad.append('one ndarray copy is shared by several pairs')
+        # (1c) a group of types handed over as a one-shot iterable (generator expression, filter(), map()): every named
+        # pair is assigned -- the iterable is consumed exactly once on the way
+        w = World(ctx.prog, PT)
+        X = w.payload('X')
+        w.call('__setitem__', Seq([Seq([Const('A'), Const('B')], 'generator'), Const('D')]), X)
+        c = w.cells()
+        left = [p_ for p_ in (('A', 'D'), ('B', 'D'), ('D', 'A'), ('D', 'B')) if is_none(c[p_])]
+        if left:
+            bad.append("T[(t for t in ['A','B']),'D'] = X leaves %s unset (a one-shot iterable key is exhausted before the "
+                       "assignment loop runs)" % left)
         # (2) list keys: 2 x 2 pairs at once
         w = World(ctx.prog, PT)
         X = w.payload('X')
@@ -256,6 +266,24 @@ def rule_getitem(ctx, rule='R14.g'):
             got = w.call('__getitem__', w.key(*k))
             if got is not c[k]:
                 bad.append('T[%r,%r] returns %r, not the object stored in that cell' % (k[0], k[1], tag(got)))
+        # site types may be any hashable -- integers that are not their own positions included: a key is a label, never an
+        # index into the type list
+        ints = (1, 2, 0)
+        w = World(ctx.prog, PT, symmetric=False, labels=ints)
+        for a in ints:
+            for b in ints:
+                w.call('__setitem__', w.key(a, b), w.payload('%d%d' % (a, b)))
+        c = w.cells()
+        for a in ints:
+            for b in ints:
+                try:
+                    got = w.call('__getitem__', w.key(a, b))
+                except Raised as e:
+                    bad.append('types %s: T[%r,%r] raises %s' % (list(ints), a, b, e.exc))
+                    continue
+                if got is not c[(a, b)]:
+                    bad.append('types %s: T[%r,%r] returns the entry %r, not the one stored under that pair of labels (an integer '
+                               'label is taken for a position)' % (list(ints), a, b, tag(got)))
         return bad
     bad = _guard(ctx, rule, construct, m.loc(), run)
     if bad is None:
